@@ -3,12 +3,14 @@
     data-dependent / conditional dependencies, unchanged writes, reverts, early cut-off,
     pedantic repair of new dependencies): every program, every history, every fuel.
     and ([C01_fw_sound]) for the fragment with FIREWALL queries and their transitive-firewall-
-    callee bookkeeping.  Projections, external inputs and unordered groups are covered by the
-    full model [Engine/Model.v], which is tied to the code by the correspondence run and judged
-    by the from-scratch oracle on every run, but whose soundness is not proved here (hence
-    "_core" / "_fw": the statement for all query kinds is the property text itself). *)
+    callee bookkeeping, and ([C01_model_sound]) for the full model [Engine/Model.v] on programs
+    with Normal, Firewall and Projection queries.  External inputs and unordered groups are
+    covered by the same full model, which is tied to the code by the correspondence run and
+    judged by the from-scratch oracle on every run, but for them its soundness is not proved
+    (the statement for all query kinds is the property text itself). *)
 From QV Require Import Common.Prelude Engine.Model Engine.Core Engine.CoreSpec Engine.CoreSound.
 From QV Require Import Engine.Fw Engine.FwSpec Engine.FwSound.
+From QV Require Import Engine.MdlSpec Engine.MdlSound.
 
 (** every answer [z] the model gives to a query at position [i] of a history is the
     from-scratch value of that query under the inputs committed by the first [i] operations *)
@@ -52,6 +54,27 @@ Proof. exact FwSound.fw_sound. Qed.
 Theorem C01_fw_unguarded_refuted : ~ fw_sound_statement_unguarded.
 Proof. exact FwSound.fw_sound_unguarded_refuted. Qed.
 
+(** The FULL model [Engine/Model.v] - the very functions [step] / [run_history] that are compared
+    with the real engine state by state on every run - for programs with Normal, Firewall and
+    PROJECTION queries: backward projection (as pedantic repair), the pending mark, dirt sent up
+    through projections when backward projections may not follow, a projection that reaches
+    other firewalls with the same value.  Every well-formed acyclic program (projections read
+    firewalls and projections only), every history of sessions, queries and restarts.  Out of
+    scope (validated, not proved): external inputs / refresh and unordered groups. *)
+Theorem C01_model_sound :
+  forall p ops i n r z, wf_model p -> Forall op_in_scope ops ->
+    model_sessions_fuelled p ops i ->
+    nth_error ops i = Some (OQuery n) ->
+    nth_error (run_history p init_state ops) i = Some r ->
+    r_out r = RValue z ->
+    MdlSpec p (inputs_after (firstn i ops)) n z.
+Proof. exact MdlSound.model_sound. Qed.
+
+Theorem C01_model_unguarded_refuted : ~ model_sound_statement_unguarded.
+Proof. exact MdlSound.model_sound_unguarded_refuted. Qed.
+
+Check mex_prog_wf.  (* wf_model is satisfiable: a projection switching between firewalls, a projection over a projection *)
+Check mex_run.
 Check fex_prog_wf.  (* wf_fw is satisfiable by a program whose dependency switches between two firewalls *)
 Check fex_run.      (* and the model run on it goes through switch, change behind the new firewall, switch back *)
 
@@ -63,3 +86,5 @@ Print Assumptions C01_core_unguarded_refuted.
 Print Assumptions C01_core_no_panic.
 Print Assumptions C01_fw_sound.
 Print Assumptions C01_fw_unguarded_refuted.
+Print Assumptions C01_model_sound.
+Print Assumptions C01_model_unguarded_refuted.
